@@ -2,6 +2,7 @@ import GModel.Basic
 import GModel.Orient
 import GModel.FreeEnergy
 import GModel.CacheFile
+import GModel.Metrics
 /-! line-protocol operations for C18 -/
 namespace G.Ops8
 open G G.Orient
@@ -86,4 +87,17 @@ def opCache : Rd String := do
   let good := (fs.filter (fun p => (decodeNat p.2).isSome)).map (·.1)
   pure ("ok " ++ " ".intercalate (outs.map (fun o => s!"{o.2.1}:{if o.2.2 then 1 else 0}")) ++ " | " ++ showNats good)
 def table2 : List (String × Rd String) := [("cache", opCache)]
+end G.Ops8
+
+namespace G.Ops8
+open G G.Metrics
+/-- `amps speeds` -/
+def opAmps : Rd String := do
+  let sp ← rdList rdRat
+  pure ("ok " ++ showRats (amplitudes sp))
+/-- `latinfo lattice` → det(M) and the metric determinant -/
+def opLatInfo : Rd String := do
+  let m ← rdM3
+  pure ("ok " ++ showRat m.det ++ " " ++ showRat m.metric.det)
+def table3 : List (String × Rd String) := [("amps", opAmps), ("latinfo", opLatInfo)]
 end G.Ops8
